@@ -66,14 +66,21 @@ var curParams map[string]int
 
 func runHarness(spec *HarnessSpec, verifDir string, o runOpts) *OblResult {
 	start := time.Now()
-	res := &OblResult{Pkg: spec.Pkg, Harness: spec.Harness, Solver: o.solver, Params: o.params}
 	ld, err := loadProgram(spec, verifDir)
 	if err != nil {
-		res.Verdict = "error"
-		res.Error = err.Error()
-		return res
+		return &OblResult{Pkg: spec.Pkg, Harness: spec.Harness, Solver: o.solver, Params: o.params, Verdict: "error", Error: err.Error()}
 	}
-	res.LoadS = time.Since(start).Seconds()
+	res := runLoaded(ld, spec, o)
+	res.LoadS = time.Since(start).Seconds() - res.WallS
+	return res
+}
+
+// runLoaded explores one harness on an already loaded program.
+func runLoaded(ld *loaded, spec *HarnessSpec, o runOpts) *OblResult {
+	start := time.Now()
+	res := &OblResult{Pkg: spec.Pkg, Harness: spec.Harness, Solver: o.solver, Params: o.params}
+	modelsUsed = map[string]int{}
+	initFailures = map[string]string{}
 	res.Seams = ld.ov.seamsApplied
 	fn := ld.pkg.Func(spec.Harness)
 	if fn == nil {
@@ -269,8 +276,12 @@ func cmdRun(args []string) int {
 
 func main() {
 	// many small heaps + 16 cores make the Go runtime thrash in this VM
-	runtime.GOMAXPROCS(3)
-	debug.SetGCPercent(400)
+	if os.Getenv("GOMAXPROCS") == "" {
+		runtime.GOMAXPROCS(3)
+	}
+	if os.Getenv("GOGC") == "" {
+		debug.SetGCPercent(400)
+	}
 	if len(os.Args) < 2 {
 		fmt.Fprintln(os.Stderr, "usage: gosym run|check|selftest ...")
 		os.Exit(2)
@@ -280,8 +291,83 @@ func main() {
 		os.Exit(cmdRun(os.Args[2:]))
 	case "check":
 		os.Exit(cmdCheck(os.Args[2:]))
+	case "runmany":
+		os.Exit(cmdRunMany(os.Args[2:]))
 	default:
 		fmt.Fprintln(os.Stderr, "unknown command", os.Args[1])
 		os.Exit(2)
 	}
+}
+
+// manyJob is one run of a worker process (see cmdCheck).
+type manyJob struct {
+	Index    int            `json:"index"`
+	Harness  string         `json:"harness"`
+	Params   map[string]int `json:"params"`
+	Solver   string         `json:"solver"`
+	Timeout  int            `json:"timeout_ms"`
+	MaxPaths int            `json:"max_paths"`
+	MaxSteps int64          `json:"max_steps"`
+	Budget   string         `json:"budget"`
+	Preempt  int            `json:"preempt"`
+	Witness  bool           `json:"witness"`
+	Covers   []string       `json:"covers"`
+}
+
+type manyFile struct {
+	Pkg    string    `json:"pkg"`
+	Files  []string  `json:"files"`
+	Seams  []Seam    `json:"seams"`
+	Jobs   []manyJob `json:"jobs"`
+	OutDir string    `json:"out_dir"`
+}
+
+// cmdRunMany loads the program once and runs a list of harness jobs on it.
+func cmdRunMany(args []string) int {
+	fs := flag.NewFlagSet("runmany", flag.ExitOnError)
+	jf := fs.String("jobs", "", "jobs file")
+	verifDir := fs.String("verif", "/verif", "verif dir")
+	repo := fs.String("repo", "/repo", "repo dir")
+	fs.Parse(args)
+	repoDir = *repo
+	b, err := os.ReadFile(*jf)
+	if err != nil {
+		fmt.Fprintln(os.Stderr, err)
+		return 2
+	}
+	var mf manyFile
+	if err := json.Unmarshal(b, &mf); err != nil {
+		fmt.Fprintln(os.Stderr, err)
+		return 2
+	}
+	spec := &HarnessSpec{Pkg: mf.Pkg, Files: mf.Files, Seams: mf.Seams}
+	t0 := time.Now()
+	ld, lerr := loadProgram(spec, *verifDir)
+	loadS := time.Since(t0).Seconds()
+	for _, j := range mf.Jobs {
+		var res *OblResult
+		if lerr != nil {
+			res = &OblResult{Pkg: mf.Pkg, Harness: j.Harness, Params: j.Params, Verdict: "error", Error: lerr.Error()}
+		} else {
+			bd, _ := time.ParseDuration(j.Budget)
+			o := runOpts{solver: j.Solver, timeout: j.Timeout, maxPaths: j.MaxPaths, budget: bd, witness: j.Witness,
+				params: j.Params, preempt: j.Preempt, maxSteps: j.MaxSteps, covers: j.Covers}
+			if o.solver == "" {
+				o.solver = "z3"
+			}
+			if o.timeout == 0 {
+				o.timeout = 60000
+			}
+			if o.maxSteps == 0 {
+				o.maxSteps = 50_000_000
+			}
+			s2 := *spec
+			s2.Harness = j.Harness
+			res = runLoaded(ld, &s2, o)
+			res.LoadS = loadS
+		}
+		rb, _ := json.Marshal(res)
+		os.WriteFile(fmt.Sprintf("%s/run%d.json", mf.OutDir, j.Index), rb, 0o644)
+	}
+	return 0
 }
